@@ -76,6 +76,28 @@ theorem disabled_change_not_announced (s : State) (x : Nat) (rest : List Nat) (h
   unfold setFlag
   split <;> simp
 
+/-- **Nothing beyond the chain.**  A change of `x` raises no flag, delivers no `*.Changed` and queues nothing for any
+object other than `x` and its ancestors: whatever the state has more afterwards concerns a member of `x :: rest`
+(siblings, children and unrelated objects keep their flags; "changes no dirty flag" beyond what the change owes). -/
+theorem change_reaches_only_the_chain (s : State) (x : Nat) (rest : List Nat) :
+    (∀ a, a ∈ (touch s x rest).dirty → a ∈ s.dirty ∨ a ∈ x :: rest) ∧
+    (∀ a, a ∈ (touch s x rest).log → a ∈ s.log ∨ a ∈ x :: rest) ∧
+    (∀ a, a ∈ (touch s x rest).pending → a ∈ s.pending ∨ a ∈ x :: rest) :=
+  ⟨(only_touch s x rest).dirty, (only_touch s x rest).log, (only_touch s x rest).pending⟩
+
+/-- … and so does the release of a hold on `x`: what it delivers or passes on concerns `x` and its ancestors only -/
+theorem release_reaches_only_the_chain (s : State) (x : Nat) (rest : List Nat) :
+    (∀ a, a ∈ (release s x rest).dirty → a ∈ s.dirty ∨ a ∈ x :: rest) ∧
+    (∀ a, a ∈ (release s x rest).log → a ∈ s.log ∨ a ∈ x :: rest) ∧
+    (∀ a, a ∈ (release s x rest).pending → a ∈ s.pending ∨ a ∈ x :: rest) :=
+  ⟨(only_release s x rest).dirty, (only_release s x rest).log, (only_release s x rest).pending⟩
+
+/-- taking a hold or disabling announces nothing and changes no flag -/
+theorem hold_and_disable_are_silent (s : State) (x : Nat) :
+    (hold s x).dirty = s.dirty ∧ (hold s x).log = s.log ∧ (hold s x).pending = s.pending ∧
+    (disable s x).dirty = s.dirty ∧ (disable s x).log = s.log ∧ (disable s x).pending = s.pending :=
+  ⟨rfl, rfl, rfl, rfl, rfl, rfl⟩
+
 /-- a guarded setter: assigning the held value does not touch anything -/
 def guardedSet (s : State) (x : Nat) (rest : List Nat) (old new : Nat) : State := if old = new then s else touch s x rest
 
@@ -102,6 +124,8 @@ example : held demo 2 = true ∧ held demo 1 = true ∧ demo.disabled = [] := by
 /-- the change reaches the glyph's callback at once and waits in the glyph's hold -/
 example : (touch demo 3 [2, 1, 0]).dirty = [3, 2] ∧ (touch demo 3 [2, 1, 0]).log = [3] ∧ (touch demo 3 [2, 1, 0]).pending = [2] := by
   decide
+/-- a sibling contour (4) and its flag stay out of it -/
+example : 4 ∉ (touch demo 3 [2, 1, 0]).dirty ∧ 4 ∉ (touch demo 3 [2, 1, 0]).log := by decide
 /-- releases in a "wrong" order (layer first, glyph twice): everything arrives -/
 example : (releaseAll (touch demo 3 [2, 1, 0]) [(1, [0]), (2, [1, 0]), (2, [1, 0])]).dirty = [3, 2, 1, 0] ∧
     (releaseAll (touch demo 3 [2, 1, 0]) [(1, [0]), (2, [1, 0]), (2, [1, 0])]).log = [3, 2, 1, 0] ∧
